@@ -9,7 +9,8 @@ def run(chk, replay=None):
     rng = random.Random(chk.seed)
     th = chk.tier == 'thorough'
     v = streams.vocab()
-    names = [('Dbq7z', 'Cq9w'), ('déb', 'cöll'), ('Dq1', 'Cq2.archive.x'), ('Dq3', '$cmd'), ('Dq4', 'system.profile'), ('Dq5', 'Cq5')]
+    names = [('Dbq7z', 'Cq9w'), ('déb', 'cöll'), ('Dq1', 'Cq2.archive.x'), ('Dq3', '$cmd'), ('Dq4', 'system.profile'), ('Dq5', 'Cq5'),
+             ('Dq5_eu', 'Cq5'), ('Dq52', 'Cq5x')]      # names that extend one another: Dq5 / Dq5_eu / Dq52, Cq5 / Cq5x (consecutive lines of related databases)
     cases = []
     for i in range(1500 if th else 350):
         db, coll = rng.choice(names)
